@@ -87,7 +87,7 @@ pub enum CFE { NoType, UnknownValue, WrongType, NeedMoreInfo, PossibleValueIgnor
 //@item src/frontend/ast.rs | struct | PoeticNumberAssignment
 //@end
 pub struct BoringAssignmentPass;
-pub enum Report { Nothing, Numeric(AssignmentLHS, NumericConstant, u32), Str(AssignmentLHS, StringConstant, u32) }
+pub enum Report { Nothing, Numeric(AssignmentLHS, NumericConstant, u32), Str(AssignmentLHS, StringConstant, u32), Push(PrimaryExpression, NumericConstant, u32) }
 #[verifier::external_body] pub struct DiagsB { _p: u8 }      // DiagsBuilder
 impl DiagsB {
     pub uninterp spec fn what(self) -> Report;
@@ -107,4 +107,19 @@ pub uninterp spec fn sp_fold_str_expr(r: Expression) -> Option<StringConstant>;
 impl Assignment { pub uninterp spec fn spec_line(&self) -> u32;
     #[verifier::external_body] pub fn line(&self) -> (r: u32) ensures r == self.spec_line() { unimplemented!() } }
 impl Expression { pub uninterp spec fn spec_line(&self) -> u32;
+    #[verifier::external_body] pub fn line(&self) -> (r: u32) ensures r == self.spec_line() { unimplemented!() } }
+
+// ---- rock <array> with <constant>
+#[verifier::external_body] pub struct PrimaryExpression { _p: u8 }
+#[verifier::external_body] pub struct ExpressionList { _p: u8 }
+//@item src/frontend/ast.rs | enum | ArrayPushRHS
+//@end
+//@item src/frontend/ast.rs | struct | ArrayPush
+//@end
+pub uninterp spec fn sp_fold_num_list(l: ExpressionList) -> Result<NumericConstant, CFE>;
+/// `NumericConstantFolder.visit_expression_list(el)` (unit folder)
+#[verifier::external_body] pub fn fold_numeric_list(l: &ExpressionList) -> (o: Result<NumericConstant, CFE>) ensures o == sp_fold_num_list(*l) { unimplemented!() }
+#[verifier::external_body] pub fn maybe_build_numeric_array_push_diag(var: &PrimaryExpression, val: Option<NumericConstant>, line: u32) -> (r: DiagsB)
+    ensures r.what() == (match val { Some(x) => Report::Push(*var, x, line), None => Report::Nothing }) { unimplemented!() }
+impl ArrayPush { pub uninterp spec fn spec_line(&self) -> u32;
     #[verifier::external_body] pub fn line(&self) -> (r: u32) ensures r == self.spec_line() { unimplemented!() } }
